@@ -176,7 +176,13 @@ def compare(c, exp, out):
                                 res.append(("alloc-table", "allocation row %s is %s before any rebalance" % (d, row)))
                                 break
                         else:
-                            e = dict((sym(n), float(x) / (float(c.get("topn", 1)) if c["alpha"] == "topn" else 1.0)) for n, x in allocs[k - 1][1])
+                            # the row must be the forward fill of what the session ITSELF recorded at the k-th rebalance
+                            # (which weights a signal-driven alpha model chooses is not C14's subject); the model's
+                            # record stands in only when the session recorded fewer rebalances than the model
+                            if k - 1 < len(out.allocs):
+                                e = dict((a, float(v)) for a, v in out.allocs[k - 1][1].items())
+                            else:
+                                e = dict((sym(n), float(x) / (float(c.get("topn", 1)) if c["alpha"] == "topn" else 1.0)) for n, x in allocs[k - 1][1])
                             got = dict((a, v) for a, v in row.items() if v is not None)
                             if got != e:
                                 res.append(("alloc-table", "allocation row %s is %s, expected the record of %s: %s" % (
